@@ -1,0 +1,361 @@
+//go:build verif
+
+// Contracts for the v2 evaluator (comment-only; read by /verif/plvc).
+//
+// C18, register discipline.  The result register is a slice `Regs.Val`; `writes` is a ghost
+// counter of the stores to that field (recomputed by the verifier at every store).  An
+// evaluator that succeeds leaves the register either written during this very evaluation or
+// empty - never holding the value of an earlier expression - so a consumer that reads the
+// register right after evaluating an operand gets that operand's value or the `no return
+// value` error.  Partial correctness: run-time panics of these functions are not excluded here.
+
+package runtimev2
+
+//@ struct PlReg
+//@ props C18
+//@ ghost writes mathint = self.writes + 1 on Val
+
+//@ spec regMono(ctx *Task) bool = ctx.Regs.writes >= old(ctx.Regs.writes)
+//@ spec regFresh(ctx *Task) bool = ctx.Regs.writes > old(ctx.Regs.writes)
+//@ spec freshOrEmpty(ctx *Task) bool = ctx.Regs.writes > old(ctx.Regs.writes) || len(ctx.Regs.Val) == 0
+//@ spec oneFresh(ctx *Task) bool = ctx.Regs.writes > old(ctx.Regs.writes) && len(ctx.Regs.Val) == 1
+
+//@ func (*PlReg).Reset
+//@ props C18
+//@ modifies reg.Val
+//@ ensures len(reg.Val) == 0 && reg.writes > old(reg.writes)
+
+//@ func (*PlReg).ReturnAppend
+//@ props C18
+//@ modifies reg.Val, elemsof(V)
+//@ ensures len(reg.Val) == len(val) && reg.writes > old(reg.writes)
+
+//@ func (*PlReg).Count
+//@ props C18
+//@ pure
+//@ ensures result == len(reg.Val)
+
+//@ func (*PlReg).GetMultiRet
+//@ props C18
+//@ pure
+//@ ensures len(reg.Val) > 1 <==> result1 == nil
+//@ ensures result1 == nil ==> result0 == reg.Val
+
+//@ extern fmt.Errorf
+//@ pure
+//@ ensures result != nil
+//@ extern reflect.TypeOf
+//@ pure
+//@ extern reflect.DeepEqual
+//@ pure
+//@ extern strings.Contains
+//@ pure
+//@ extern error.Error
+//@ pure
+// host-supplied functions: the write counter only grows
+//@ functype FnCall
+//@ observe regcount int = len(ctx.Regs.Val)
+//@ ensures regMono(ctx)
+
+//@ func (*Task).GetKey
+//@ props C18
+//@ safety off
+//@ pure
+//@ ensures result1 == nil ==> result0 != nil
+
+//@ func (*Task).SetVarb
+//@ props C18
+//@ safety off
+//@ modifies runtime.Stack.Data, maptype(map[string]*runtime.Varb), runtime.Varb.Value, runtime.Varb.DType
+
+//@ func (*Task).ProcExit
+//@ props C18 C14
+//@ modifies ctx.procExit
+//@ ensures result == ctx.procExit && (old(ctx.procExit) ==> ctx.procExit)
+
+//@ func (*Task).StmtRetrun
+//@ props C18
+//@ modifies ctx.procExit
+
+//@ iface Signal.ExitSignal
+//@ params recv
+//@ modifies nothing
+
+// the argument getters consume the value they read: a function built on them leaves the
+// register empty unless it returns something itself
+//@ func GetParam
+//@ ensures[C18] old(len(ctx.Regs.Val)) == 0 && result1 == nil ==> len(ctx.Regs.Val) == 0
+//@ ensures[C18] regMono(ctx)
+//@ loop 1
+//@ invariant[C18] (old(len(ctx.Regs.Val)) == 0 ==> len(ctx.Regs.Val) == 0) && regMono(ctx)
+
+// ---- the evaluator ---------------------------------------------------------------------
+
+// literals, names, collections and operators always yield a value
+//@ spec alwaysValue(t ast.NodeType) bool = t == ast.TypeArithmeticExpr || t == ast.TypeConditionalExpr || t == ast.TypeUnaryExpr || t == ast.TypeSliceExpr
+//@ | || t == ast.TypeInExpr || t == ast.TypeListLiteral || t == ast.TypeIdentifier || t == ast.TypeMapLiteral || t == ast.TypeIndexExpr
+//@ | || t == ast.TypeBoolLiteral || t == ast.TypeIntegerLiteral || t == ast.TypeFloatLiteral || t == ast.TypeStringLiteral || t == ast.TypeNilLiteral
+
+//@ func RunExpr
+//@ props C18
+//@ safety off
+//@ observe sig Signal = ctx.signal
+//@ modifies v2Frame
+//@ ensures regMono(ctx)
+// an expression that succeeds leaves a fresh or an empty register
+//@ ownensures result == nil && node != nil && !ast.isStmtKind(node) && node.NodeType != ast.TypeAssignmentExpr ==> freshOrEmpty(ctx)
+//@ ownensures result == nil && node != nil && alwaysValue(node.NodeType) ==> oneFresh(ctx)
+// an undefined name is an error
+//@ ownensures node != nil && node.NodeType == ast.TypeIdentifier && ncalls((*Task).GetKey) == 1 && callres((*Task).GetKey, 0, 1) != nil ==> result != nil
+//@ ownensures node != nil && node.NodeType == ast.TypeIdentifier ==> ncalls((*Task).GetKey) == 1 && callarg((*Task).GetKey, 0, 1) == node.elem.(*ast.Identifier).Name
+
+//@ func RunParenExpr
+//@ like RunExpr
+//@ props C18
+//@ ensures result == nil && expr.Param != nil && !ast.isStmtKind(expr.Param) && expr.Param.NodeType != ast.TypeAssignmentExpr ==> freshOrEmpty(ctx)
+
+//@ func RunUnaryExpr
+//@ like RunExpr
+//@ props C18
+//@ ensures result == nil ==> oneFresh(ctx)
+
+//@ func RunListInitExpr
+//@ like RunExpr
+//@ props C18
+//@ ensures result == nil ==> oneFresh(ctx)
+//@ loop 1
+//@ invariant regMono(ctx)
+
+//@ func RunMapInitExpr
+//@ like RunExpr
+//@ props C18
+//@ ensures result == nil ==> oneFresh(ctx)
+//@ loop 1
+//@ invariant regMono(ctx) && ret != nil
+
+//@ func RunIndexExprGet
+//@ like RunExpr
+//@ props C18
+//@ ensures result == nil ==> oneFresh(ctx)
+
+//@ func searchListAndMap
+//@ like RunExpr
+//@ props C18
+//@ ensures result == nil ==> oneFresh(ctx)
+//@ loop 1
+//@ invariant regMono(ctx)
+
+//@ func RunInExpr
+//@ like RunExpr
+//@ props C18
+//@ ensures result == nil ==> oneFresh(ctx)
+//@ loop 1
+//@ invariant regMono(ctx)
+
+//@ func RunConditionExpr
+//@ like RunExpr
+//@ props C18
+//@ ensures result == nil ==> oneFresh(ctx)
+
+//@ func RunArithmeticExpr
+//@ like RunExpr
+//@ props C18
+//@ ensures result == nil ==> oneFresh(ctx)
+
+//@ func RunSliceExpr
+//@ like RunExpr
+//@ props C18
+//@ ensures result == nil ==> oneFresh(ctx)
+//@ loop 1
+//@ invariant regMono(ctx)
+//@ loop 2
+//@ invariant regMono(ctx)
+//@ loop 3
+//@ invariant regMono(ctx)
+//@ loop 4
+//@ invariant regMono(ctx)
+
+// a call leaves what the function returned during this call - or nothing
+//@ func RunCallExpr
+//@ like RunExpr
+//@ props C18
+//@ ensures result == nil ==> freshOrEmpty(ctx)
+//@ ensures ncalls(FnCall) <= 1 && (ncalls(FnCall) == 1 ==> callobs(FnCall, 0, regcount) == 0 && callfn(FnCall, 0) == ctx.funcs[expr.Name].Call && callarg(FnCall, 0, 1) == expr)
+//@ ensures ncalls(FnCall) == 0 && result == nil ==> len(ctx.Regs.Val) == 0
+
+//@ func runAssignArith
+//@ props C18
+//@ safety off
+//@ pure
+
+//@ func changeListOrMapValue
+//@ like RunExpr
+//@ props C18
+//@ loop 1
+//@ invariant regMono(ctx)
+
+// `a, b = x, y`: the whole right side is evaluated, in order, before anything is assigned: while the
+// first loop (which evaluates the right operands) runs, no variable and no element is assigned
+// (its invariant); the assignments are made by the second loop, which starts after it.
+//@ func RunAssignmentExpr
+//@ like RunExpr
+//@ props C18
+//@ ensures result == nil ==> ncalls(RunExpr) >= tomath(len(expr.RHS)) && (forall k :: 0 <= k && k < len(expr.RHS) ==> callarg(RunExpr, tomath(k), 1) == expr.RHS[k])
+//@ loop 1
+//@ invariant regMono(ctx) && ncalls(RunExpr) == tomath(rangeindex) + 1 && ncalls((*Task).SetVarb) == 0 && ncalls(changeListOrMapValue) == 0
+//@ invariant forall k :: 0 <= k && k <= rangeindex ==> callarg(RunExpr, tomath(k), 1) == expr.RHS[k]
+//@ loop 2
+//@ invariant regMono(ctx) && ncalls(RunExpr) >= tomath(len(expr.RHS))
+//@ invariant forall k :: 0 <= k && k < len(expr.RHS) ==> callarg(RunExpr, tomath(k), 1) == expr.RHS[k]
+
+// ---- statements --------------------------------------------------------------------------
+
+//@ func RunStmts
+//@ like RunExpr
+//@ props C18 C14
+//@ observe sig Signal = ctx.signal
+//@ loop 1
+//@ invariant regMono(ctx)
+
+//@ func RunIfElseStmt
+//@ like RunExpr
+//@ props C18
+//@ loop 1
+//@ invariant regMono(ctx)
+
+//@ func RunForStmt
+//@ like RunExpr
+//@ props C18
+//@ loop 1
+//@ invariant regMono(ctx)
+
+//@ func RunForInStmt
+//@ like RunExpr
+//@ props C18
+//@ loop 1
+//@ invariant regMono(ctx)
+//@ loop 2
+//@ invariant regMono(ctx)
+//@ loop 3
+//@ invariant regMono(ctx)
+
+//@ func RunBreakStmt
+//@ like RunExpr
+//@ props C18
+//@ func RunContinueStmt
+//@ like RunExpr
+//@ props C18
+
+//@ func forbreak
+//@ props C18
+//@ modifies ctx.loopBreak
+//@ func forcontinue
+//@ props C18
+//@ modifies ctx.loopContinue
+//@ sweep[C18] condTrue
+
+// ---- C14 (v2): the caller's signal reaches the task that runs the script ------------------
+//@ functype Opt
+//@ params ctx
+//@ modifies ctx.private
+
+//@ func (*Script).Run
+//@ props C14 C18
+//@ safety off
+//@ ensures ncalls(RunStmts) == 1 && callarg(RunStmts, 0, 1) == s.Stmts && callres(RunStmts, 0, 0) == result
+//@ ensures callobs(RunStmts, 0, sig) == signal
+//@ loop 1
+//@ invariant task != nil && fresh(task)
+
+// ---- operator kernels: the same contracts as the v1 kernels (C02) --------------------------
+
+//@ func arithOpInt
+//@ props C18
+//@ intmode bv64
+//@ ensures op == ast.ADD ==> result0 == l + r && result1 == ast.Int && result2 == nil
+//@ ensures op == ast.SUB ==> result0 == l - r && result1 == ast.Int && result2 == nil
+//@ ensures op == ast.MUL ==> result0 == l * r && result1 == ast.Int && result2 == nil
+//@ ensures op == ast.DIV && r != 0 ==> result0 == l / r && result1 == ast.Int && result2 == nil
+//@ ensures op == ast.MOD && r != 0 ==> result0 == l % r && result1 == ast.Int && result2 == nil
+//@ ensures (op == ast.DIV || op == ast.MOD) && r == 0 ==> result2 != nil
+//@ ensures op != ast.ADD && op != ast.SUB && op != ast.MUL && op != ast.DIV && op != ast.MOD ==> result2 != nil
+
+//@ func arithOpFloat
+//@ props C18
+//@ intmode bv64
+//@ ensures op == ast.ADD ==> same(result0, l + r) && result1 == ast.Float && result2 == nil
+//@ ensures op == ast.SUB ==> same(result0, l - r) && result1 == ast.Float && result2 == nil
+//@ ensures op == ast.MUL ==> same(result0, l * r) && result1 == ast.Float && result2 == nil
+//@ ensures op == ast.DIV && r != 0.0 ==> same(result0, l / r) && result1 == ast.Float && result2 == nil
+//@ ensures op == ast.DIV && r == 0.0 ==> result2 != nil
+//@ ensures op != ast.ADD && op != ast.SUB && op != ast.MUL && op != ast.DIV ==> result2 != nil
+
+//@ func typePromotion
+//@ props C18
+//@ ensures result == ((l == ast.Float || r == ast.Float) ? ast.Float : ast.Int)
+
+//@ func cmpType
+//@ props C18
+//@ ensures result == runtime.isNum(dtype)
+
+//@ func arithType
+//@ props C18
+//@ ensures result == (runtime.isNum(dtype) || dtype == ast.String)
+
+//@ func assign2arithOp
+//@ props C18
+//@ ensures op == ast.ADDEQ ==> result0 == ast.ADD && result1
+//@ ensures op == ast.SUBEQ ==> result0 == ast.SUB && result1
+//@ ensures op == ast.MULEQ ==> result0 == ast.MUL && result1
+//@ ensures op == ast.DIVEQ ==> result0 == ast.DIV && result1
+//@ ensures op == ast.MODEQ ==> result0 == ast.MOD && result1
+//@ ensures op != ast.ADDEQ && op != ast.SUBEQ && op != ast.MULEQ && op != ast.DIVEQ && op != ast.MODEQ ==> !result1
+
+//@ func condOp
+//@ props C18
+//@ intmode bv64
+//@ requires runtime.wfVal(lhs.V, lhs.T) && runtime.wfVal(rhs.V, rhs.T)
+//@ ensures result2 == nil ==> result1 == ast.Bool && typeis(result0, bool)
+// equality: exact on integers, IEEE when a float operand is present, false across unrelated types
+//@ ensures op == ast.EQEQ ==> result2 == nil
+//@ ensures op == ast.NEQ ==> result2 == nil
+//@ ensures op == ast.EQEQ && runtime.isNum(lhs.T) && runtime.isNum(rhs.T) && lhs.T != ast.Float && rhs.T != ast.Float ==> result0.(bool) == (runtime.asInt(lhs.V, lhs.T) == runtime.asInt(rhs.V, rhs.T))
+//@ ensures op == ast.NEQ && runtime.isNum(lhs.T) && runtime.isNum(rhs.T) && lhs.T != ast.Float && rhs.T != ast.Float ==> result0.(bool) == (runtime.asInt(lhs.V, lhs.T) != runtime.asInt(rhs.V, rhs.T))
+//@ ensures op == ast.EQEQ && runtime.isNum(lhs.T) && runtime.isNum(rhs.T) && (lhs.T == ast.Float || rhs.T == ast.Float) ==> result0.(bool) == (runtime.asFloat(lhs.V, lhs.T) == runtime.asFloat(rhs.V, rhs.T))
+//@ ensures op == ast.NEQ && runtime.isNum(lhs.T) && runtime.isNum(rhs.T) && (lhs.T == ast.Float || rhs.T == ast.Float) ==> result0.(bool) == (runtime.asFloat(lhs.V, lhs.T) != runtime.asFloat(rhs.V, rhs.T))
+//@ ensures op == ast.EQEQ && runtime.isNum(lhs.T) && !runtime.isNum(rhs.T) ==> result0.(bool) == false
+//@ ensures op == ast.NEQ && runtime.isNum(lhs.T) && !runtime.isNum(rhs.T) ==> result0.(bool) == true
+//@ ensures op == ast.EQEQ && lhs.T == ast.String && rhs.T == ast.String ==> result0.(bool) == (lhs.V.(string) == rhs.V.(string))
+//@ ensures op == ast.NEQ && lhs.T == ast.String && rhs.T == ast.String ==> result0.(bool) == (lhs.V.(string) != rhs.V.(string))
+//@ ensures op == ast.EQEQ && lhs.T == ast.String && rhs.T != ast.String ==> result0.(bool) == false
+//@ ensures op == ast.NEQ && lhs.T == ast.String && rhs.T != ast.String ==> result0.(bool) == true
+//@ ensures op == ast.EQEQ && lhs.T == ast.Nil ==> result0.(bool) == (rhs.T == ast.Nil)
+//@ ensures op == ast.NEQ && lhs.T == ast.Nil ==> result0.(bool) == (rhs.T != ast.Nil)
+// ordering: exact on integers, IEEE with a float operand, an error for non-numeric operands
+//@ ensures (op == ast.LT || op == ast.LTE || op == ast.GT || op == ast.GTE || op == ast.AND || op == ast.OR) && (!runtime.isNum(lhs.T) || !runtime.isNum(rhs.T)) ==> result2 != nil
+//@ ensures (op == ast.LT || op == ast.LTE || op == ast.GT || op == ast.GTE) && runtime.isNum(lhs.T) && runtime.isNum(rhs.T) ==> result2 == nil
+//@ ensures op == ast.LT && runtime.isNum(lhs.T) && runtime.isNum(rhs.T) && lhs.T != ast.Float && rhs.T != ast.Float ==> result0.(bool) == (runtime.asInt(lhs.V, lhs.T) < runtime.asInt(rhs.V, rhs.T))
+//@ ensures op == ast.LTE && runtime.isNum(lhs.T) && runtime.isNum(rhs.T) && lhs.T != ast.Float && rhs.T != ast.Float ==> result0.(bool) == (runtime.asInt(lhs.V, lhs.T) <= runtime.asInt(rhs.V, rhs.T))
+//@ ensures op == ast.GT && runtime.isNum(lhs.T) && runtime.isNum(rhs.T) && lhs.T != ast.Float && rhs.T != ast.Float ==> result0.(bool) == (runtime.asInt(lhs.V, lhs.T) > runtime.asInt(rhs.V, rhs.T))
+//@ ensures op == ast.GTE && runtime.isNum(lhs.T) && runtime.isNum(rhs.T) && lhs.T != ast.Float && rhs.T != ast.Float ==> result0.(bool) == (runtime.asInt(lhs.V, lhs.T) >= runtime.asInt(rhs.V, rhs.T))
+//@ ensures op == ast.LT && runtime.isNum(lhs.T) && runtime.isNum(rhs.T) && (lhs.T == ast.Float || rhs.T == ast.Float) ==> result0.(bool) == (runtime.asFloat(lhs.V, lhs.T) < runtime.asFloat(rhs.V, rhs.T))
+//@ ensures op == ast.LTE && runtime.isNum(lhs.T) && runtime.isNum(rhs.T) && (lhs.T == ast.Float || rhs.T == ast.Float) ==> result0.(bool) == (runtime.asFloat(lhs.V, lhs.T) <= runtime.asFloat(rhs.V, rhs.T))
+//@ ensures op == ast.GT && runtime.isNum(lhs.T) && runtime.isNum(rhs.T) && (lhs.T == ast.Float || rhs.T == ast.Float) ==> result0.(bool) == (runtime.asFloat(lhs.V, lhs.T) > runtime.asFloat(rhs.V, rhs.T))
+//@ ensures op == ast.GTE && runtime.isNum(lhs.T) && runtime.isNum(rhs.T) && (lhs.T == ast.Float || rhs.T == ast.Float) ==> result0.(bool) == (runtime.asFloat(lhs.V, lhs.T) >= runtime.asFloat(rhs.V, rhs.T))
+// logic: only on two booleans
+//@ ensures (op == ast.AND || op == ast.OR) && (lhs.T != ast.Bool || rhs.T != ast.Bool) ==> result2 != nil
+//@ ensures op == ast.AND && lhs.T == ast.Bool && rhs.T == ast.Bool ==> result2 == nil && result0.(bool) == (lhs.V.(bool) && rhs.V.(bool))
+//@ ensures op == ast.OR && lhs.T == ast.Bool && rhs.T == ast.Bool ==> result2 == nil && result0.(bool) == (lhs.V.(bool) || rhs.V.(bool))
+//@ ensures op != ast.EQEQ && op != ast.NEQ && op != ast.LT && op != ast.LTE && op != ast.GT && op != ast.GTE && op != ast.AND && op != ast.OR ==> result2 != nil
+
+// the slice length helper: same contract as in package runtime
+//@ func sliceLen
+//@ props C18
+//@ intmode bv64
+//@ pure
+//@ requires step > 0 ==> 0 <= start && end <= 8796093022208
+//@ requires step < 0 ==> -1 <= end && start <= 8796093022208
+//@ ensures result >= 0
+//@ ensures step > 0 && start < end ==> result <= end - start
+//@ ensures step < 0 && start > end ==> result <= start - end
+//@ ensures !(step > 0 && start < end) && !(step < 0 && start > end) ==> result == 0
